@@ -36,6 +36,7 @@
 #include <vector>
 #include <iostream>
 #include <stdio.h>
+#include <string.h>
 
 using namespace MASA;
 
@@ -93,6 +94,7 @@ extern "C" int masa_get_name(char* name)
 {
   std::string fuw(name);
   masa_get_name<double>(&fuw);
+  strcpy(name, fuw.c_str());
   return 0;
 }
 
